@@ -227,6 +227,7 @@ class PathChecker:
         self.ex.base = list(self.base)
         self.friendly = None
         self.reproduced = 0
+        self.npaths = 0
         self.model_timeout_ms = 5000
 
     # -- model -> float-exact environment
@@ -264,6 +265,14 @@ class PathChecker:
             except evalq.EvalError:
                 return False
         return True
+
+    def _knife_edge(self):
+        z3 = self.z3
+        for c, tag in zip(self.ex.pc, self.ex.tags):
+            if tag is None and z3.is_eq(c) and c.arg(0).sort().kind() == z3.Z3_REAL_SORT:
+                if not (z3.is_rational_value(c.arg(0)) and z3.is_const(c.arg(1))) and not (z3.is_rational_value(c.arg(1)) and z3.is_const(c.arg(0))):
+                    return True
+        return False
 
     def _interior(self):
         """keep integer-part arguments away from their boundaries (float-robust witnesses)"""
@@ -318,12 +327,17 @@ class PathChecker:
         """yield up to `limit` models of solver s, preferring the extra constraint sets in order"""
         z3 = self.z3
         n = 0
+        unknowns = 0
         for extra in extra_sets:
+            if unknowns >= 2:
+                return
             s.push()
             s.add(*extra)
             blocked = 0
             while n < limit and blocked < 3:
                 r = self.core.timed_check(s, self.model_timeout_ms)
+                if r == z3.unknown:
+                    unknowns += 1
                 if r != z3.sat:
                     break
                 m = s.model()
@@ -344,7 +358,7 @@ class PathChecker:
     def check(self, prefix):
         z3, core, ex, h = self.z3, self.core, self.ex, self.h
         res = dict(kind=None, obligations=0, discharged=0, trivial=0, unknown=[], violations=[], unreproduced=[], also_sat=[],
-                   twins={}, validated=0, validation_skipped=0, validation_failed=[], inconclusive=[], outside=0, sample=None, decisions=0,
+                   twins={}, validated=0, validation_skipped=0, validation_knife_edge=0, strategies={}, validation_failed=[], inconclusive=[], outside=0, sample=None, decisions=0,
                    solver_s=0.0, pending=[])
         t0 = time.time()
         kind, val, pending = ex.run_path(prefix, lambda: h.run(self.inp))
@@ -386,18 +400,19 @@ class PathChecker:
             s.add(viol)
             tq = time.time()
             # a fresh one-shot solver per obligation: z3's incremental core is much weaker on nonlinear goals
-            s1 = z3.Solver()
-            s1.add(*self.base)
-            s1.add(*ex.pc)
-            s1.add(*L.axioms)
-            s1.add(viol)
-            r = core.timed_check(s1, h.obligation_timeout_ms)
+            r, how = core.robust_check(self.base + ex.pc + L.axioms + [viol], h.obligation_timeout_ms, res['strategies'])
             if os.environ.get('VERIF_TRACE'):
                 print('   obligation %-50s %s %.2fs' % (name, r, time.time() - tq), flush=True)
             if r == z3.unsat:
                 res['discharged'] += 1
             elif r == z3.unknown:
-                res['unknown'].append('%s [%s]' % (name, s.reason_unknown()))
+                res['unknown'].append('%s [timeout]' % name)
+                if os.environ.get('VERIF_DUMP_UNKNOWN'):
+                    os.makedirs(os.environ['VERIF_DUMP_UNKNOWN'], exist_ok=True)
+                    fn = os.path.join(os.environ['VERIF_DUMP_UNKNOWN'], '%s_%s.smt2' % (re.sub(r'[^A-Za-z0-9]+', '_', name)[:60], os.getpid()))
+                    s1 = z3.Solver()
+                    s1.add(*(self.base + ex.pc + L.axioms + [viol]))
+                    open(fn, 'w').write(s1.to_smt2())
             else:
                 self._counterexample(s, name, res)
             s.pop()
@@ -410,7 +425,9 @@ class PathChecker:
             res['twins'][name] = (r == z3.sat)
         res['solver_s'] = time.time() - ts
         # witness validation
-        if h.validate and not res['violations'] and not res['also_sat']:
+        self.npaths += 1
+        ve = int(h.cfg.get('validate_every', 1)) if isinstance(getattr(h, 'cfg', None), dict) else 1
+        if h.validate and not res['violations'] and not res['also_sat'] and (self.npaths % ve == 0 or self.npaths <= 2):
             self._validate(s, out, res)
         if res['sample'] is None:
             res['sample'] = self._sample(s, out)
@@ -501,6 +518,11 @@ class PathChecker:
         if tried == 0:
             res['validation_skipped'] += 1      # the solver produced no model within the witness budget: not a mismatch
             return
+        if self._knife_edge():
+            # the path requires an exact equality between computed reals; IEEE rounding can legitimately take the float
+            # run down the neighbouring path (outside every claim, DESIGN.md 1.2): recorded, not a harness failure
+            res['validation_knife_edge'] += 1
+            return
         res['validation_failed'].append('path %s: %s' % (''.join('1' if b else '0' for b in self.ex.trace), msg))
 
     def _sample(self, s, out):
@@ -540,10 +562,10 @@ def run_job(job):
             pc = PathChecker(h)
             _W[key] = pc
         stack = [list(p) for p in job['prefixes']]
-        agg = dict(cfg=job['cfg'].get('name'), paths=0, decisions=0, obligations=0, discharged=0, trivial=0, unknown=[], validation_skipped=0,
+        agg = dict(cfg=job['cfg'].get('name'), paths=0, decisions=0, obligations=0, discharged=0, trivial=0, unknown=[], validation_skipped=0, validation_knife_edge=0,
                    violations=[], unreproduced=[], twins={}, validated=0, validation_failed=[], inconclusive=[],
                    outside=0, samples=[], solver_s=0.0, kinds={}, leftover=[], feas_queries=0, feas_unknown=0,
-                   error=None, also_sat=[])
+                   error=None, also_sat=[], strategies={})
         q0, u0 = pc.ex.queries, pc.ex.unknown
         while stack:
             if agg['paths'] >= job['max_paths'] or time.time() - t0 > job['budget_s']:
@@ -553,12 +575,14 @@ def run_job(job):
             stack.extend(r['pending'])
             agg['paths'] += 1
             agg['kinds'][r['kind']] = agg['kinds'].get(r['kind'], 0) + 1
-            for k in ('decisions', 'obligations', 'discharged', 'trivial', 'validated', 'validation_skipped', 'outside', 'solver_s'):
+            for k in ('decisions', 'obligations', 'discharged', 'trivial', 'validated', 'validation_skipped', 'validation_knife_edge', 'outside', 'solver_s'):
                 agg[k] += r[k]
             for k in ('unknown', 'violations', 'unreproduced', 'validation_failed', 'inconclusive', 'also_sat'):
                 agg[k].extend(r[k])
             for k, v in r['twins'].items():
                 agg['twins'][k] = agg['twins'].get(k, False) or v
+            for k, v in r['strategies'].items():
+                agg['strategies'][k] = agg['strategies'].get(k, 0) + v
             if r['sample'] and len(agg['samples']) < 2:
                 agg['samples'].append(r['sample'])
         agg['leftover'] = stack
@@ -617,18 +641,19 @@ def run_property(prop, module, tier, seed=0, workers=None, deadline_s=None, extr
     order.sort(key=lambda i: -cfgs[i].get('weight', 1))
     workers = workers or min(16, os.cpu_count() or 4)
     deadline_s = deadline_s or getattr(mod, 'DEADLINE', {}).get(tier, 3600)
-    per = {c['name']: dict(paths=0, decisions=0, obligations=0, discharged=0, trivial=0, unknown=[], violations=[], validation_skipped=0,
+    per = {c['name']: dict(paths=0, decisions=0, obligations=0, discharged=0, trivial=0, unknown=[], violations=[], validation_skipped=0, validation_knife_edge=0,
                            unreproduced=[], twins={}, validated=0, validation_failed=[], inconclusive=[], outside=0,
                            samples=[], solver_s=0.0, kinds={}, feas_queries=0, feas_unknown=0, errors=[], leftover=0,
-                           cpu_s=0.0, also_sat=[])
+                           cpu_s=0.0, also_sat=[], strategies={})
            for c in cfgs}
     functions = set()
     pending_jobs = collections.deque()
     for i in order:
-        pending_jobs.append(dict(prop=prop, module=module, cfg=cfgs[i], prefixes=[[]],
-                                 max_paths=cfgs[i].get('chunk', 40), budget_s=cfgs[i].get('chunk_s', 30)))
+        pending_jobs.append(dict(prop=prop, module=module, cfg=cfgs[i], prefixes=[[]], gen=0,
+                                 max_paths=2, budget_s=cfgs[i].get('chunk_s', 30)))
     ctx = mp.get_context('fork')
     timed_out = False
+    last_progress = time.time()
     with ProcessPoolExecutor(max_workers=workers, mp_context=ctx, initializer=_worker_init) as pool:
         running = {}
         while pending_jobs or running:
@@ -636,6 +661,11 @@ def run_property(prop, module, tier, seed=0, workers=None, deadline_s=None, extr
                 j = pending_jobs.popleft()
                 running[pool.submit(run_job, j)] = j
             done, _ = wait(list(running), timeout=5, return_when=FIRST_COMPLETED)
+            if time.time() - last_progress > 30:
+                last_progress = time.time()
+                print('[%4ds] %s: %d paths, %d jobs running, %d queued (%s)' % (
+                    time.time() - t0, prop, sum(p['paths'] for p in per.values()), len(running), len(pending_jobs),
+                    ', '.join('%s:%d' % (k[:18], v['paths']) for k, v in per.items() if v['paths'])[:300]), file=sys.stderr, flush=True)
             if time.time() - t0 > deadline_s:
                 timed_out = True
                 for f in running:
@@ -652,7 +682,7 @@ def run_property(prop, module, tier, seed=0, workers=None, deadline_s=None, extr
                 if a.get('error'):
                     p['errors'].append(a['error'])
                     continue
-                for k in ('paths', 'decisions', 'obligations', 'discharged', 'trivial', 'validated', 'validation_skipped', 'outside', 'solver_s',
+                for k in ('paths', 'decisions', 'obligations', 'discharged', 'trivial', 'validated', 'validation_skipped', 'validation_knife_edge', 'outside', 'solver_s',
                           'feas_queries', 'feas_unknown'):
                     p[k] += a[k]
                 p['cpu_s'] += a.get('wall_s', 0)
@@ -662,6 +692,8 @@ def run_property(prop, module, tier, seed=0, workers=None, deadline_s=None, extr
                     p['kinds'][k] = p['kinds'].get(k, 0) + v
                 for k, v in a['twins'].items():
                     p['twins'][k] = p['twins'].get(k, False) or v
+                for k, v in a.get('strategies', {}).items():
+                    p['strategies'][k] = p['strategies'].get(k, 0) + v
                 if len(p['samples']) < 2:
                     p['samples'].extend(a['samples'][:2 - len(p['samples'])])
                 left = a['leftover']
@@ -670,7 +702,10 @@ def run_property(prop, module, tier, seed=0, workers=None, deadline_s=None, extr
                 for k in range(n):
                     chunk = left[k::n]
                     if chunk:
-                        pending_jobs.append(dict(j, prefixes=chunk))
+                        g = j.get('gen', 0) + 1
+                        # ramp up: tiny chunks first so that the frontier spreads over the workers quickly
+                        mp_ = min(j['cfg'].get('chunk', 40), 2 ** (g + 1))
+                        pending_jobs.append(dict(j, prefixes=chunk, gen=g, max_paths=mp_))
         if timed_out:
             pool.shutdown(wait=False, cancel_futures=True)
             for pr in list(getattr(pool, '_processes', {}).values()):
@@ -736,7 +771,7 @@ def finish(prop, mod, tier, seed, cfgs, per, functions, t0, timed_out, extra_evi
         property_id=prop, tier=tier, seed=seed, level='model_checking',
         coverage=dict(
             states=max(tot('paths'), 0), transitions=max(tot('decisions'), 0),
-            traces_validated_against_impl=tot('validated'), paths_without_witness_in_budget=tot('validation_skipped'),
+            traces_validated_against_impl=tot('validated'), paths_without_witness_in_budget=tot('validation_skipped'), knife_edge_paths_where_float_run_diverged=tot('validation_knife_edge'),
             samples=allsamples[:12] or [dict(note='no path explored')],
             obligations=tot('obligations'), discharged=tot('discharged'), discharged_trivially=tot('trivial'),
             undecided=sum(len(per[c['name']]['unknown']) for c in cfgs),
@@ -744,6 +779,8 @@ def finish(prop, mod, tier, seed, cfgs, per, functions, t0, timed_out, extra_evi
             paths_outside_claim=tot('outside'),
             branch_feasibility_queries=tot('feas_queries'), branch_feasibility_unknown=tot('feas_unknown'),
             solver_seconds=round(tot('solver_s'), 2), cpu_seconds=round(tot('cpu_s'), 1),
+            solver_strategy_attempts={k: sum(per[c['name']]['strategies'].get(k, 0) for c in cfgs)
+                                      for k in sorted({k for c in cfgs for k in per[c['name']]['strategies']})},
             configurations=[dict(name=c['name'], bound=c.get('bound', ''), paths=per[c['name']]['paths'],
                                  path_kinds=per[c['name']]['kinds'],
                                  obligations=per[c['name']]['obligations'], discharged=per[c['name']]['discharged'],
